@@ -43,6 +43,7 @@ type Contract struct {
 	GhostSets   []*Clause
 	Joins       []*Clause
 	Hypotheses  []*Clause
+	Locks       []Expr // objects whose mutex this function may acquire (lock-protected fields are havocked for callers)
 	Schemas     []*Clause // Anchor: encoder side, Target: decoder side
 	Refines     []string
 	Trusted     bool
@@ -172,7 +173,7 @@ func (cs *ContractSet) LoadContractFile(path, pkg string) error {
 		}
 		lines = append(lines, rawLine{t, n})
 	}
-	keywords := []string{"func ", "pred ", "ghost ", "uf ", "axiom ", "invariant ", "fieldrange ", "requires", "ensures", "modifies", "decreases", "loop ", "assert", "ghostset", "refines", "trusted", "opaque", "assumption ", "fieldproto ", "role ", "allocates", "interface", "join ", "hypothesis", "deterministic", "schema"}
+	keywords := []string{"func ", "pred ", "ghost ", "uf ", "axiom ", "invariant ", "fieldrange ", "requires", "ensures", "modifies", "decreases", "loop ", "assert", "ghostset", "refines", "trusted", "opaque", "assumption ", "fieldproto ", "role ", "allocates", "interface", "join ", "hypothesis", "deterministic", "schema", "locks "}
 	isKw := func(s string) bool {
 		s = strings.TrimSpace(s)
 		for _, k := range keywords {
@@ -474,6 +475,14 @@ func (cs *ContractSet) LoadContractFile(path, pkg string) error {
 				cur.Opaque = true
 			case strings.HasPrefix(t, "allocates"):
 				cur.Allocates = true
+			case strings.HasPrefix(t, "locks "):
+				for _, part := range splitTop(strings.TrimSpace(strings.TrimPrefix(t, "locks "))) {
+					e, err := ParseExpr(part)
+					if err != nil {
+						return fail(l, "%v", err)
+					}
+					cur.Locks = append(cur.Locks, e)
+				}
 			case strings.HasPrefix(t, "schema"):
 				// schema [label props] ENC => DEC   (each side: TypeName | FuncKey:Type | FuncKey:var(name))
 				label, props, rest := takeLabel(strings.TrimSpace(strings.TrimPrefix(t, "schema")))
